@@ -67,6 +67,7 @@ def judge(res, ev, meta, extra=()):
     if lost >= 1 and attempts >= 2:
         res.nontrivial((meta["kind"], meta["flavour"], tuple(meta["script"]), meta["rt"], meta.get("answer")))
         res.count("lifetimes_with_loss_and_reconnect")
+        res.count(f"loss_and_reconnect[{meta['kind']}/{meta['flavour']}]")
     case = {"gw": meta["kind"], "flavour": meta["flavour"], "script": meta["script"], "rt": meta["rt"], "seed": meta["seed"],
             "answer": meta.get("answer"), "hold": meta.get("hold", 0.0)}
     for sig, what in V:
@@ -152,7 +153,8 @@ def finish(agg, tier):
                 "non-trivial when >= 1 loss and >= 1 reconnect were judged.",
         "exhaustive": True,
         "floors": [("lifetimes", c.get("lifetimes", 0), 1500), ("lifetimes_with_loss_and_reconnect", c.get("lifetimes_with_loss_and_reconnect", 0), 500),
-                   ("watchdog_answering_links", c.get("watchdog_answering_links", 0), 18), ("watchdog_silent_links", c.get("watchdog_silent_links", 0), 12)],
+                   ("watchdog_answering_links", c.get("watchdog_answering_links", 0), 18), ("watchdog_silent_links", c.get("watchdog_silent_links", 0), 12)]
+                  + [(f"loss_and_reconnect[{k}/{fl}]", c.get(f"loss_and_reconnect[{k}/{fl}]", 0), 40) for (k, fl) in ALPHA],
         "assumptions": ["fakes mimic the failure behaviour of serial ports, sockets and asyncio transports; 'about twice' = [2, 3] x rt",
                         "on the threaded TCP gateway a peer's orderly close is only observable through a failing write or the "
                         "watchdog: loss callback and re-dial are required within 3 x rt",
